@@ -101,13 +101,24 @@ const (
 	c06ParserMem
 	c06ParserStream
 	c06ParserFS
+	c06ReaderChunked // ReaderFromDelta fed by a reader that returns at most 7 bytes per Read (as a zlib reader may)
 	c06NAppliers
 )
 
-var c06ApplierName = []string{"PatchDelta", "ApplyDelta", "ReaderFromDelta", "Parser(no storage)", "Parser(memory storage)", "Parser(no storage, stream)", "Parser(filesystem storage)"}
+var c06ApplierName = []string{"PatchDelta", "ApplyDelta", "ReaderFromDelta", "Parser(no storage)", "Parser(memory storage)", "Parser(no storage, stream)", "Parser(filesystem storage)", "ReaderFromDelta(short reads)"}
 
 // implementation the applier ends in: the key of a finding names it.
-var c06Impl = []string{"patchDelta[PatchDelta]", "patchDelta[ApplyDelta]", "ReaderFromDelta", "patchDeltaWriter", "patchDeltaWriter", "patchDeltaWriter", "patchDeltaWriter"}
+var c06Impl = []string{"patchDelta[PatchDelta]", "patchDelta[ApplyDelta]", "ReaderFromDelta", "patchDeltaWriter", "patchDeltaWriter", "patchDeltaWriter", "patchDeltaWriter", "ReaderFromDelta"}
+
+// c06ShortReader returns at most 7 bytes per Read.
+type c06ShortReader struct{ r io.Reader }
+
+func (s c06ShortReader) Read(p []byte) (int, error) {
+	if len(p) > 7 {
+		p = p[:7]
+	}
+	return s.r.Read(p)
+}
 
 type c06Got struct {
 	ok    bool
@@ -118,7 +129,29 @@ type c06Got struct {
 	extra string // inconsistency noticed while collecting the result
 }
 
+// c06Variant selects the object format and the type of the base object for the
+// parser appliers (the zero value is a SHA-1 blob).
+type c06Variant struct {
+	sha256 bool
+	typ    int // bTCommit.. ; 0 = blob
+}
+
+func (v c06Variant) code() int {
+	if v.typ == 0 {
+		return bTBlob
+	}
+	return v.typ
+}
+func (v c06Variant) name() string { return bTypeName[v.code()] }
+func (v c06Variant) String() string {
+	return bFmtName(v.sha256) + "/" + v.name()
+}
+
 func c06Run(applier int, src, delta []byte, fsdir string) (g c06Got) {
+	return c06RunV(applier, src, delta, fsdir, c06Variant{})
+}
+
+func c06RunV(applier int, src, delta []byte, fsdir string, v c06Variant) (g c06Got) {
 	defer func() {
 		if r := recover(); r != nil {
 			g = c06Got{panic: fmt.Sprint(r)}
@@ -148,11 +181,15 @@ func c06Run(applier int, src, delta []byte, fsdir string) (g c06Got) {
 			g.extra = fmt.Sprintf("target size %d but %d bytes", tgt.Size(), len(out))
 		}
 		return g
-	case c06Reader:
+	case c06Reader, c06ReaderChunked:
 		base := &plumbing.MemoryObject{}
 		base.SetType(plumbing.BlobObject)
 		base.Write(src)
-		rc, err := packfile.ReaderFromDelta(base, bytes.NewReader(delta))
+		var dr io.Reader = bytes.NewReader(delta)
+		if applier == c06ReaderChunked {
+			dr = c06ShortReader{dr}
+		}
+		rc, err := packfile.ReaderFromDelta(base, dr)
 		if err != nil {
 			return c06Got{err: err.Error()}
 		}
@@ -164,8 +201,8 @@ func c06Run(applier int, src, delta []byte, fsdir string) (g c06Got) {
 		return c06Got{ok: true, data: out}
 	}
 	// parser appliers: a two-entry pack {blob src, delta}
-	p := bNewPack(false)
-	boff := p.Obj(bTBlob, src, true)
+	p := bNewPack(v.sha256)
+	boff := p.Obj(v.code(), src, true)
 	var doff int64
 	mode := bModeNone
 	switch applier {
@@ -176,12 +213,12 @@ func c06Run(applier int, src, delta []byte, fsdir string) (g c06Got) {
 		doff = p.Ofs(boff, delta, true)
 	case c06ParserMem:
 		mode = bModeMem
-		doff = p.Ref(bOID(false, "blob", src), delta, true)
+		doff = p.Ref(bOID(v.sha256, v.name(), src), delta, true)
 	case c06ParserFS:
 		mode = bModeFS
 		doff = p.Ofs(boff, delta, false)
 	}
-	res := bParse(p.Bytes(), mode, false, fsdir, nil)
+	res := bParse(p.Bytes(), mode, v.sha256, fsdir, nil)
 	if res.Panic != "" {
 		return c06Got{panic: res.Panic}
 	}
@@ -209,11 +246,11 @@ func c06Run(applier int, src, delta []byte, fsdir string) (g c06Got) {
 			return g
 		}
 		g.data = o.Data
-		if o.Type != "blob" {
+		if o.Type != v.name() {
 			g.extra = "resolved type " + o.Type
 		}
 		want := 2
-		if g.oid == bOIDHex(false, "blob", src) {
+		if g.oid == bOIDHex(v.sha256, v.name(), src) {
 			want = 1
 		}
 		if len(res.Stored) != want {
@@ -227,6 +264,10 @@ func c06Run(applier int, src, delta []byte, fsdir string) (g c06Got) {
 // finding key + description. The key names the implementation and the rule of
 // patch_delta that is not honoured, so one defect gives one key.
 func c06Judge(applier int, src, delta []byte, g c06Got) (key, what string) {
+	return c06JudgeV(applier, src, delta, g, c06Variant{})
+}
+
+func c06JudgeV(applier int, src, delta []byte, g c06Got, v c06Variant) (key, what string) {
 	impl := c06Impl[applier]
 	if g.panic != "" {
 		return impl + " panics", "panic: " + g.panic
@@ -252,7 +293,7 @@ func c06Judge(applier int, src, delta []byte, g c06Got) (key, what string) {
 			}
 		} else if g.oid != "" {
 			got = "object " + g.oid
-			if m.Reason == "" && g.oid != bOIDHex(false, "blob", m.Out) {
+			if m.Reason == "" && g.oid != bOIDHex(v.sha256, v.name(), m.Out) {
 				reason += "+wrong-output"
 			}
 		}
@@ -279,8 +320,8 @@ func c06Judge(applier int, src, delta []byte, g c06Got) (key, what string) {
 	if g.data != nil && !bytes.Equal(g.data, m.Out) {
 		return impl + " wrong output", fmt.Sprintf("%s produced %s, git produces %s", c06ApplierName[applier], fw.Q(string(c06Clip(g.data))), fw.Q(string(c06Clip(m.Out))))
 	}
-	if g.oid != "" && g.oid != bOIDHex(false, "blob", m.Out) {
-		return impl + " wrong output", fmt.Sprintf("%s names the result %s, git's result hashes to %s", c06ApplierName[applier], g.oid, bOIDHex(false, "blob", m.Out))
+	if g.oid != "" && g.oid != bOIDHex(v.sha256, v.name(), m.Out) {
+		return impl + " wrong output", fmt.Sprintf("%s names the result %s, git's result hashes to %s", c06ApplierName[applier], g.oid, bOIDHex(v.sha256, v.name(), m.Out))
 	}
 	return "", ""
 }
@@ -322,12 +363,20 @@ func c06Shape(delta []byte) string {
 
 // c06Check runs the given appliers on one (src, delta) and records verdicts.
 func c06Check(c *fw.Ctx, src, delta []byte, appliers []int, fsdir string, origin string) {
+	c06CheckV(c, src, delta, appliers, fsdir, origin, c06Variant{})
+}
+
+func c06CheckV(c *fw.Ctx, src, delta []byte, appliers []int, fsdir string, origin string, v c06Variant) {
 	for _, a := range appliers {
-		g := c06Run(a, src, delta, fsdir)
+		g := c06RunV(a, src, delta, fsdir, v)
 		c.Eval()
 		c.Transitions(1)
-		if key, what := c06Judge(a, src, delta, g); key != "" {
-			c.Fail(key, what, map[string]any{"applier": c06ApplierName[a], "source_len": len(src), "source": "bPattern(len)", "delta_hex": hex.EncodeToString(delta), "origin": origin, "go_git_ok": g.ok, "go_git_err": g.err})
+		if key, what := c06JudgeV(a, src, delta, g, v); key != "" {
+			dh := delta
+			if len(dh) > 256 {
+				dh = dh[:256]
+			}
+			c.Fail(key, what, map[string]any{"applier": c06ApplierName[a], "source_len": len(src), "source": "bPattern(len)", "delta_len": len(delta), "delta_hex": hex.EncodeToString(dh), "origin": origin, "variant": v.String(), "go_git_ok": g.ok, "go_git_err": g.err})
 		}
 	}
 }
@@ -470,7 +519,7 @@ func c06GitBatch(c *fw.Ctx, cases []c06Case, tag string) int {
 // c06GitAccepted sends every case the model accepts through the real
 // `git index-pack` (one pack) and `git unpack-objects` + `cat-file`: the names
 // git computes and the bytes it stores must be the model's output.
-func c06GitAccepted(c *fw.Ctx, all []c06Case, tag string) {
+func c06GitAccepted(c *fw.Ctx, all []c06Case, tag string, unpack bool) {
 	// index-pack refuses a pack in which a REF_DELTA's base name occurs twice
 	// ("duplicate base"): deltas whose result is byte-identical to some source
 	// go to a second pack that holds OFS_DELTA entries only.
@@ -490,11 +539,11 @@ func c06GitAccepted(c *fw.Ctx, all []c06Case, tag string) {
 			cases = append(cases, cs)
 		}
 	}
-	c06GitAcceptedPack(c, cases, tag, true)
-	c06GitAcceptedPack(c, coll, tag+"-ofsonly", false)
+	c06GitAcceptedPack(c, cases, tag, true, unpack)
+	c06GitAcceptedPack(c, coll, tag+"-ofsonly", false, unpack)
 }
 
-func c06GitAcceptedPack(c *fw.Ctx, cases []c06Case, tag string, withRef bool) {
+func c06GitAcceptedPack(c *fw.Ctx, cases []c06Case, tag string, withRef bool, unpack bool) {
 	p := bNewPack(false)
 	baseOff := map[string]int64{}
 	want := map[int64]string{}
@@ -540,6 +589,10 @@ func c06GitAcceptedPack(c *fw.Ctx, cases []c06Case, tag string, withRef bool) {
 			fw.Abort("patch-delta model disagrees with real git (index-pack batch %s): entry at %d is %x, model says %s", tag, e.Off, e.OID, want[int64(e.Off)])
 		}
 		c.TracesValidated(1)
+	}
+	if !unpack { // index-pack has hashed the bytes it produced: equal names = equal bytes
+		os.RemoveAll(dir)
+		return
 	}
 	g.MustRunIn(p.Bytes(), "unpack-objects", "-q")
 	ids := bSortedKeys(wantData)
@@ -611,20 +664,32 @@ func c06Seeds() []c06Case {
 	s300 := bPattern(300)
 	s70k := bPattern(66000)
 	// hand-written
-	add(s300, cat(bVarint(300), bVarint(10), []byte{0x90, 10}))                                  // copy off 0 size 10
-	add(s300, cat(bVarint(300), bVarint(300), []byte{0xb0, 0x2c, 0x01}))                         // copy whole, 2 size bytes
-	add(s300, cat(bVarint(300), bVarint(7), []byte{0x91, 0x05, 0x04, 0x03, 'x', 'y', 'z'}))      // copy + insert
-	add(s300, cat(bVarint(300), bVarint(5), []byte{0x02, 'h', 'i', 0x93, 0x29, 0x01, 0x03}))     // insert + copy with 2 offset bytes (off 0x129)
-	add(s300, cat(bVarint(300), bVarint(3), []byte{0xff, 1, 0, 0, 0, 3, 0, 0}))                  // all 7 parameter bytes
-	add(s70k, cat(bVarint(66000), bVarint(0x10000), []byte{0x80}))                               // size 0 => 0x10000
-	add(s70k, cat(bVarint(66000), bVarint(0x10000), []byte{0xc0, 0x01}))                         // size byte 3 = 1 => 0x10000
-	add(s70k, cat(bVarint(66000), bVarint(0x10001), []byte{0x01, 'q', 0x80}))                    // insert + 64k copy
-	add(s70k, cat(bVarint(66000), bVarint(720), []byte{0xb3, 0x00, 0xff, 0xd0, 0x02}))           // copy off 0xff00 size 0x2d0 (to the very end)
-	add(bPattern(1), cat(bVarint(1), bVarint(2), []byte{0x90, 1, 0x90, 1}))                      // two copies
-	add(s300, cat(bVarint(300), bVarint(30), []byte{0x91, 100, 10, 0x90, 10, 0x91, 20, 10}))     // copy, copy backwards, copy forwards
-	add(s300, cat(bVarint(300), bVarint(30), []byte{0x91, 100, 10, 0x90, 10, 0x91, 150, 10}))    // copy, copy backwards, copy far forwards
-	add([]byte{}, cat(bVarint(0), bVarint(3), []byte{0x03, 'a', 'b', 'c'}))                      // empty source
-	add(bPattern(5), cat(bVarint(5), bVarint(127), append([]byte{0x7f}, bPattern(127)...)))      // longest insert
+	add(s300, cat(bVarint(300), bVarint(10), []byte{0x90, 10}))                               // copy off 0 size 10
+	add(s300, cat(bVarint(300), bVarint(300), []byte{0xb0, 0x2c, 0x01}))                      // copy whole, 2 size bytes
+	add(s300, cat(bVarint(300), bVarint(7), []byte{0x91, 0x05, 0x04, 0x03, 'x', 'y', 'z'}))   // copy + insert
+	add(s300, cat(bVarint(300), bVarint(5), []byte{0x02, 'h', 'i', 0x93, 0x29, 0x01, 0x03}))  // insert + copy with 2 offset bytes (off 0x129)
+	add(s300, cat(bVarint(300), bVarint(3), []byte{0xff, 1, 0, 0, 0, 3, 0, 0}))               // all 7 parameter bytes
+	add(s70k, cat(bVarint(66000), bVarint(0x10000), []byte{0x80}))                            // size 0 => 0x10000
+	add(s70k, cat(bVarint(66000), bVarint(0x10000), []byte{0xc0, 0x01}))                      // size byte 3 = 1 => 0x10000
+	add(s70k, cat(bVarint(66000), bVarint(0x10001), []byte{0x01, 'q', 0x80}))                 // insert + 64k copy
+	add(s70k, cat(bVarint(66000), bVarint(720), []byte{0xb3, 0x00, 0xff, 0xd0, 0x02}))        // copy off 0xff00 size 0x2d0 (to the very end)
+	add(bPattern(1), cat(bVarint(1), bVarint(2), []byte{0x90, 1, 0x90, 1}))                   // two copies
+	add(s300, cat(bVarint(300), bVarint(30), []byte{0x91, 100, 10, 0x90, 10, 0x91, 20, 10}))  // copy, copy backwards, copy forwards
+	add(s300, cat(bVarint(300), bVarint(30), []byte{0x91, 100, 10, 0x90, 10, 0x91, 150, 10})) // copy, copy backwards, copy far forwards
+	add([]byte{}, cat(bVarint(0), bVarint(3), []byte{0x03, 'a', 'b', 'c'}))                   // empty source
+	add(bPattern(5), cat(bVarint(5), bVarint(127), append([]byte{0x7f}, bPattern(127)...)))   // longest insert
+	// non-canonical size varints: 9 bytes (the longest that cannot overflow 64 bits)
+	pad := func(n uint64, l int) []byte {
+		v := bVarint(n)
+		for len(v) < l {
+			v[len(v)-1] |= 0x80
+			v = append(v, 0)
+		}
+		return v
+	}
+	add(s300, cat(pad(300, 9), bVarint(10), []byte{0x90, 10}))
+	add(s300, cat(bVarint(300), pad(10, 9), []byte{0x90, 10}))
+	add(s300, cat(pad(300, 5), pad(10, 8), []byte{0x90, 10}))
 	// produced by go-git's own encoder
 	blocks := func(spec string) []byte {
 		var b []byte
@@ -709,6 +774,12 @@ func runC06(c *fw.Ctx) {
 		pprof.StartCPUProfile(f)
 		defer pprof.StopCPUProfile()
 	}
+	// C06_PHASES (development aid; empty = everything): comma list of
+	// conf,mut,large,variants,diffdelta,enum
+	on := func(ph string) bool {
+		v := os.Getenv("C06_PHASES")
+		return v == "" || strings.Contains(","+v+",", ","+ph+",")
+	}
 	maxLen := c.Pick(5, 6) // PatchDelta, ApplyDelta, ReaderFromDelta, Parser without storage
 	midLen := c.Pick(4, 5) // Parser with memory storage / on a non-seekable stream
 	confLen := 4
@@ -725,12 +796,14 @@ func runC06(c *fw.Ctx) {
 	c.SetRule("(b) every delta byte stream up to delta_stream_max_len over a 12-byte alphabet, applied to the pattern source whose length is the one the stream declares (so the body is reached), to a source one byte longer (streams up to the shorter parser bound, all appliers) and, for the buffer appliers, to 5 fixed mismatching sources; plus every truncation / one-byte substitution / junk suffix of 20 valid deltas (incl. 64 KiB copies); each run through PatchDelta, ApplyDelta, ReaderFromDelta and Parser.Parse (seekable, stream, memory storage; filesystem storage up to the shorter bound) and compared with a transcription of git's patch_delta; (a) DiffDelta on all pairs over {a,b} up to diffdelta_ab_max_len bytes (insert-only deltas), block strings and 64 KiB straddles, applied back by every applier and by real git. A case is non-trivial when the declared source size matches; distinct = (model verdict or operation shape of the accepted delta). The transcription is replayed against real git (fsck over a pack with a hand-written index: one process for all streams up to the conformance length; index-pack/unpack-objects/cat-file on all accepted ones; one index-pack or unpack-objects process per stream up to length 2 and per hand-written seed).")
 	c.Assume("git 2.39.5 is the reference; delta buffers handed to patch_delta are NUL-terminated (xmallocz), as in index-pack, unpack-objects and packfile.c")
 	c.Assume("index-pack is run without --strict in the conformance step because --strict rejects a pack whose delta result equals its base ('appears twice'), which is not a property of the delta")
-	c.Assume("size varints longer than 9 bytes are outside the enumerated space; deltas declaring a target above 64 MiB are not replayed on real git (it dies allocating the buffer, machine dependent) but are still judged by the transcription")
+	c.Assume("streams whose size varint overflows 64 bits are not replayed on real git either: it dies (size_t overflow) instead of failing the one object")
+	c.Assume("size varints longer than 9 bytes are outside the enumerated space (except as one-byte mutations of the 9-byte seeds); deltas declaring a target above 64 MiB are not replayed on real git (it dies allocating the buffer, machine dependent) but are still judged by the transcription")
 
 	total := fw.CountStrings(len(c06Sigma), maxLen)
 	confTotal := fw.CountStrings(len(c06Sigma), confLen)
 	seeds := c06Seeds()
 	mutants := c06Mutants(seeds)
+	large := c06LargeCases(c)
 	c.Bound("seed_deltas", len(seeds))
 	c.Bound("seed_mutations", len(mutants))
 
@@ -779,6 +852,11 @@ func runC06(c *fw.Ctx) {
 	}
 	half := len(conf) / 2
 	t0 := c.Elapsed().Seconds()
+	if !on("conf") {
+		conf, single, large2 := conf[:0], single[:0], large[:0]
+		_, _, _ = conf, single, large2
+		runPart = func(f func()) {}
+	}
 	runPart(func() { c06GitBatch(c, conf[:half], "enumA") })
 	runPart(func() { c06GitBatch(c, conf[half:], "enumB") })
 	// real git allocates the declared target size before it looks at the
@@ -787,13 +865,17 @@ func runC06(c *fw.Ctx) {
 	// model only.
 	var gitMut []c06Case
 	for _, m := range mutants {
-		if bGitPatchDeltaX(m.src, m.delta, 4).Target <= 1<<26 {
+		// ... and it dies (st_left_shift, "size_t overflow") instead of failing the
+		// one object when a size varint overflows 64 bits: judged by the model only.
+		if r := bGitPatchDeltaX(m.src, m.delta, 4); r.Target <= 1<<26 && r.Reason != "size-varint-overflow" {
 			gitMut = append(gitMut, m)
 		}
 	}
 	c.Bound("seed_mutations_replayed_on_git", len(gitMut))
 	runPart(func() { c06GitBatch(c, gitMut, "mut") })
-	runPart(func() { c06GitAccepted(c, append(append([]c06Case{}, conf...), gitMut...), "all") })
+	runPart(func() { c06GitAccepted(c, append(append([]c06Case{}, conf...), gitMut...), "all", true) })
+	runPart(func() { c06GitBatch(c, large, "large") })
+	runPart(func() { c06GitAccepted(c, large, "large", false) })
 	runPart(func() { c06GitSingle(c, single) })
 	// the git replays (mostly waiting for processes) run while the appliers are
 	// enumerated; a disagreement aborts the whole check at the end.
@@ -811,8 +893,12 @@ func runC06(c *fw.Ctx) {
 	fast := []int{c06PatchDelta, c06ApplyDelta, c06Reader, c06ParserNone}
 	mid := []int{c06ParserMem, c06ParserStream}
 	// ---- 3. mutations of valid deltas (model replayed on exactly these above)
-	all := append(append(append([]int{}, fast...), mid...), c06ParserFS)
-	c.ParDo(len(mutants), 0, func(i int) {
+	all := append(append(append([]int{}, fast...), mid...), c06ParserFS, c06ReaderChunked)
+	nmut := len(mutants)
+	if !on("mut") {
+		nmut = 0
+	}
+	c.ParDo(nmut, 0, func(i int) {
 		m := mutants[i]
 		c06Check(c, m.src, m.delta, all, "", "seed-mutation")
 		r := bGitPatchDeltaX(m.src, m.delta, 4)
@@ -826,8 +912,45 @@ func runC06(c *fw.Ctx) {
 
 	phases["seed_mutations"] = c.Elapsed().Seconds() - t0
 	t0 = c.Elapsed().Seconds()
+	// ---- 3b. streams beyond the buffer sizes of the appliers (c06_large.go)
+	nlarge := len(large)
+	if !on("large") {
+		nlarge = 0
+	}
+	c.ParDo(nlarge, 0, func(i int) {
+		m := large[i]
+		c06Check(c, m.src, m.delta, all, "", "large")
+		r := bGitPatchDeltaX(m.src, m.delta, 4)
+		if r.Reason == "" {
+			c.Class(fmt.Sprintf("large:ok:%s:%d", c06Shape(m.delta), len(m.delta)/1024))
+		} else {
+			c.Class("large:rej:" + r.Reason)
+		}
+	})
+	states += int64(len(large))
+	phases["large"] = c.Elapsed().Seconds() - t0
+	t0 = c.Elapsed().Seconds()
+	// ---- 3c. the parser appliers in SHA-256 packs / with other base types
+	variants := c06Variants()
+	c.Bound("parser_variants", fmt.Sprint(variants))
+	nvar := len(mutants) * len(variants)
+	if !on("variants") {
+		nvar = 0
+	}
+	c.ParDo(nvar, 0, func(i int) {
+		m, v := mutants[i/len(variants)], variants[i%len(variants)]
+		ap := []int{c06ParserNone, c06ParserMem}
+		if i%len(variants) == 0 {
+			ap = append(ap, c06ParserFS, c06ParserStream)
+		}
+		c06CheckV(c, m.src, m.delta, ap, "", "seed-mutation-variant", v)
+	})
+	phases["variants"] = c.Elapsed().Seconds() - t0
+	t0 = c.Elapsed().Seconds()
 	// ---- 4. DiffDelta round trip
-	states += int64(c06DiffDelta(c, all))
+	if on("diffdelta") {
+		states += int64(c06DiffDelta(c, all))
+	}
 	phases["diffdelta"] = c.Elapsed().Seconds() - t0
 	t0 = c.Elapsed().Seconds()
 	// ---- 2. appliers against the model: the enumerated streams
@@ -835,6 +958,9 @@ func runC06(c *fw.Ctx) {
 	mism := []int{0, 1, 3, 4, 300}
 	const chunk = 128
 	nchunks := (total + chunk - 1) / chunk
+	if !on("enum") {
+		nchunks = 0
+	}
 	var smu sync.Mutex
 	c.ParDo(nchunks, 0, func(ci int) {
 		lo, hi := ci*chunk, (ci+1)*chunk
@@ -861,6 +987,7 @@ func runC06(c *fw.Ctx) {
 				}
 				if len(d) <= fsLen {
 					c06Check(c, src, d, []int{c06ParserFS}, "", "enumerated")
+					c06Check(c, c06Pattern(int(decl)+1), d, []int{c06ParserFS}, "", "enumerated-longer-source")
 				}
 				m := bGitPatchDeltaX(src, d, 4)
 				if m.Reason == "" {
@@ -941,7 +1068,11 @@ func c06DiffDelta(c *fw.Ctx, all []int) int {
 			pair{s, append(append(append([]byte{}, s[:n/2]...), "mid"...), s[n/2:]...)},
 			pair{s[:n-20], s})
 	}
-	c.Bound("diffdelta_pairs", map[string]int{"ab": nAB, "blocks": nBlocks, "large": len(pairs) - nAB - nBlocks})
+	nLarge := len(pairs) - nAB - nBlocks
+	for _, e := range c06ExtraPairs(c) {
+		pairs = append(pairs, pair{e.src, e.tgt})
+	}
+	c.Bound("diffdelta_pairs", map[string]int{"ab": nAB, "blocks": nBlocks, "large": nLarge, "extra": len(pairs) - nAB - nBlocks - nLarge})
 
 	type gitCase struct {
 		src, delta, tgt []byte
@@ -977,6 +1108,17 @@ func c06DiffDelta(c *fw.Ctx, all []int) int {
 			return
 		}
 		big := len(pr.src) > 1<<20
+		// the object-level entry point of the same encoder
+		if !big {
+			gd, gerr := c06GetDelta(pr.src, pr.tgt)
+			c.Eval()
+			c.Transitions(1)
+			if gerr != "" {
+				c.Fail("GetDelta fails", "GetDelta: "+gerr, rep)
+			} else if gm := bGitPatchDeltaX(pr.src, gd, 0); gm.Reason != "" || !bytes.Equal(gm.Out, pr.tgt) {
+				c.Fail("GetDelta output does not reproduce the target under git's patch_delta", fmt.Sprintf("GetDelta(%d bytes,%d bytes): model says %q", len(pr.src), len(pr.tgt), gm.Reason), rep)
+			}
+		}
 		for _, a := range all {
 			if big && (a == c06ParserFS || a == c06ParserMem || a == c06ParserStream) {
 				continue
@@ -1045,4 +1187,37 @@ func c06DiffDelta(c *fw.Ctx, all []int) int {
 		os.RemoveAll(dir)
 	}
 	return len(pairs)
+}
+
+// c06GetDelta runs packfile.GetDelta on two memory objects and returns the
+// delta bytes.
+func c06GetDelta(src, tgt []byte) (delta []byte, errs string) {
+	defer func() {
+		if r := recover(); r != nil {
+			errs = "panic: " + fmt.Sprint(r)
+		}
+	}()
+	mk := func(b []byte) plumbing.EncodedObject {
+		o := &plumbing.MemoryObject{}
+		o.SetType(plumbing.BlobObject)
+		o.Write(b)
+		return o
+	}
+	d, err := packfile.GetDelta(mk(src), mk(tgt))
+	if err != nil {
+		return nil, err.Error()
+	}
+	r, err := d.Reader()
+	if err != nil {
+		return nil, err.Error()
+	}
+	defer r.Close()
+	delta, err = io.ReadAll(r)
+	if err != nil {
+		return nil, err.Error()
+	}
+	if d.Size() != int64(len(delta)) {
+		return nil, fmt.Sprintf("delta object says size %d, holds %d bytes", d.Size(), len(delta))
+	}
+	return delta, ""
 }
